@@ -12,10 +12,20 @@
   byte-level law of the sub-byte depths (`subbyte_byte_law`: six tables over the whole domain
   old byte x slot x value x other slot / bit position), which is then lifted by proof.
 
-  Observation (belongs to C08, not claimed here): `index * 2/3/4` in the real `load`/`store` is
-  `usize` arithmetic and overflows (debug panic) for indices above `usize::MAX / 4`; the model's
-  indices are `Nat`. The saturating operations of `nth` / `size_hint` are modelled; they are exact
-  under `Iter.Fits` (slice shorter than 2^61 bytes).
+  Index arithmetic: the multi-byte `load`/`store` compute the byte offset with `index.checked_mul(n)`
+  (since /repo commit e95846b; before, `index * 2/3/4` overflowed `usize` for indices above
+  `usize::MAX / 4`), so an index whose offset does not fit `usize` is rejected like every other index
+  beyond the buffer. The model's `Nat` product followed by the slice test gives the same answer
+  (a real buffer is shorter than `usize::MAX`), and the generator emits such indices
+  (`usize::MAX / 4 + 1`, `usize::MAX / 2 + 1`, `usize::MAX`, ...) for model and oracle alike; nothing
+  is left outside the model here. The saturating operations of `nth` / `size_hint` are modelled
+  (`satAddUsize`, `satMulUsize`); `iter_nth` holds for every `k`, including those that saturate
+  the index, and the correspondence runs scripts whose running position passes `usize::MAX`.
+  `size_hint` is exact under `Iter.Fits` (slice shorter than 2^61 bytes).
+
+  Three theorems are definitional (`rfl` restatements of model definitions, kept so that the
+  formula is visible here; they carry no proof content): `pixel_count_spec`, `layout_u8`,
+  `to_le_bytes_spec`. `size_hint_saturates_beyond_fits` is an observation about the model's boundary.
 -/
 import EG.Lemmas.RawIter
 import EG.Lemmas.RawLayout
@@ -24,21 +34,50 @@ open EG EG.Raw
 
 /-! ### Byte level (sub-byte depths): kernel evaluation over the whole domain -/
 
-/-- For 1, 2 and 4 bits per pixel, both orders, EVERY old byte, slot and value: the new byte is a
-byte; loading the slot gives the value; every other slot loads what it did; bit `sh + j` of the
-new byte is bit `j` of the value and every bit outside the slot's field is the old bit. -/
+/-- For 1, 2 and 4 bits per pixel, both orders, EVERY old byte, slot and value, with the field of
+slot `s` written out literally (`sh s`: `LittleEndianMsb0` fills a byte from the most significant
+bits downwards, slot `s` starts at bit `8 - bits*(s+1)`; `BigEndianLsb0` from the least significant
+bits upwards, slot `s` starts at bit `bits*s`): storing with the shift of slot `k` gives a byte;
+loading slot `k` gives the value; every other slot loads what it did; bit `sh k + j` of the new
+byte is bit `j` of the value and every bit outside `[sh k, sh k + bits)` is the old bit.
+(`store_uses_literal_field` below says that `store`/`load` of pixel `i` use exactly this shift.) -/
 theorem subbyte_byte_law {bits : Nat} {o : Order} (h : subByte bits) {b k v : Nat}
     (hb : b < 256) (hk : k < 8 / bits) (hv : v < 2 ^ bits) :
-    storeByte bits (slotShift bits o k) v b < 256 ∧
-    loadByte bits (slotShift bits o k) (storeByte bits (slotShift bits o k) v b) = v ∧
+    let sh : Nat → Nat := fun s => match o with
+      | .le => 8 - bits * (s + 1)
+      | .be => bits * s
+    storeByte bits (sh k) v b < 256 ∧
+    loadByte bits (sh k) (storeByte bits (sh k) v b) = v ∧
     (∀ k', k' < 8 / bits → k' ≠ k →
-      loadByte bits (slotShift bits o k') (storeByte bits (slotShift bits o k) v b)
-        = loadByte bits (slotShift bits o k') b) ∧
+      loadByte bits (sh k') (storeByte bits (sh k) v b) = loadByte bits (sh k') b) ∧
     (∀ p, p < 8 →
-      (storeByte bits (slotShift bits o k) v b).testBit p =
-        if slotShift bits o k ≤ p ∧ p < slotShift bits o k + bits then v.testBit (p - slotShift bits o k)
-        else b.testBit p) :=
-  byteLaw_spec h hb hk hv
+      (storeByte bits (sh k) v b).testBit p =
+        if sh k ≤ p ∧ p < sh k + bits then v.testBit (p - sh k) else b.testBit p) := by
+  intro sh
+  have key : ∀ s, s < 8 / bits → slotShift bits o s = sh s := by
+    intro s hs
+    cases o with
+    | le => exact slotShift_le h hs
+    | be => exact slotShift_be _ _
+  have law := byteLaw_spec (o := o) h hb hk hv
+  rw [key k hk] at law
+  refine ⟨law.1, law.2.1, fun k' hk' hne => ?_, law.2.2.2⟩
+  have t := law.2.2.1 k' hk' hne
+  rw [key k' hk'] at t
+  exact t
+
+/-- The shift `store` / `load` use for pixel `i` (`bit_position(index).1` of the real code) IS the
+literal field start of slot `i % pixels_per_byte` in byte `i / pixels_per_byte`. -/
+theorem store_uses_literal_field {bits : Nat} (h : subByte bits) (o : Order) (i : Nat) :
+    bitPosition bits o i =
+      (i / (8 / bits),
+        match o with
+        | .le => 8 - bits * (i % (8 / bits) + 1)
+        | .be => bits * (i % (8 / bits))) := by
+  rw [bitPosition_eq]
+  cases o with
+  | le => rw [slotShift_le h (Nat.mod_lt _ (ppb_pos h))]
+  | be => rw [slotShift_be]
 
 /-! ### `store` then `load` -/
 
@@ -64,17 +103,24 @@ theorem store_touches_only {bits : Nat} (hb : validBits bits = true) (o : Order)
     ∀ k, ¬ ownByte bits i k → (store bits o v buf i).2[k]? = buf[k]? :=
   ⟨store_length hb o v buf i, fun k hk => store_other_bytes hb o v buf i k hk⟩
 
-/-- Sub-byte depths, inside pixel `i`'s byte: exactly the `bits` bits of the pixel's field
-`[bit_index, bit_index + bits)` are replaced (by the bits of `v`), every other bit is the old one. -/
+/-- Sub-byte depths, inside pixel `i`'s byte (byte `i / pixels_per_byte`), with the bit positions
+written out: let `s = i % pixels_per_byte` and `sh = 8 - bits*(s+1)` for `LittleEndianMsb0`
+(most significant bits first), `sh = bits*s` for `BigEndianLsb0` (least significant bits first).
+Exactly the `bits` bits `[sh, sh + bits)` of that byte are replaced (bit `sh + j` becomes bit `j` of
+`v`), every other bit of the byte is the old one. -/
 theorem store_touches_only_bits {bits : Nat} {o : Order} {v : Nat} {buf : List Nat} {i : Nat}
     (h : subByte bits) (hw : BytesOk buf) (hv : v < 2 ^ bits) (hlt : i / (8 / bits) < buf.length) :
+    let sh := match o with
+      | .le => 8 - bits * (i % (8 / bits) + 1)
+      | .be => bits * (i % (8 / bits))
     ∃ nb, (store bits o v buf i).2[i / (8 / bits)]? = some nb ∧ nb < 256 ∧
       ∀ p, p < 8 → nb.testBit p =
-        if slotShift bits o (i % (8 / bits)) ≤ p ∧ p < slotShift bits o (i % (8 / bits)) + bits
-        then v.testBit (p - slotShift bits o (i % (8 / bits)))
-        else buf[i / (8 / bits)].testBit p := by
-  rw [store_sub h]
-  exact storeBits_own_byte h hw hv hlt
+        if sh ≤ p ∧ p < sh + bits then v.testBit (p - sh) else buf[i / (8 / bits)].testBit p := by
+  have key := storeBits_own_byte (o := o) h hw hv hlt
+  rw [← store_sub h] at key
+  cases o with
+  | le => rw [slotShift_le h (Nat.mod_lt _ (ppb_pos h))] at key; exact key
+  | be => rw [slotShift_be] at key; exact key
 
 /-- The buffer stays a byte buffer. -/
 theorem store_preserves_bytes {bits : Nat} (hb : validBits bits = true) (o : Order) {v : Nat}
@@ -103,7 +149,8 @@ theorem load_in_range {bits : Nat} (hb : validBits bits = true) (o : Order) {buf
   load_lt hb o hw hl
 
 /-- The number of pixels of a buffer: `len * (8 / bits)` below 8 bits, `len / (bits / 8)` above
-(excess bytes are ignored). -/
+(excess bytes are ignored). Definitional (`rfl`): this is the definition of `pixelCount`, shown
+here because `store_oob`, `load_oob` and `iter_toList` are stated with it. -/
 theorem pixel_count_spec (bits len : Nat) :
     pixelCount bits len = if bits < 8 then len * (8 / bits) else len / (bits / 8) := rfl
 
@@ -128,7 +175,8 @@ theorem layout_subbyte {bits : Nat} (h : subByte bits) (o : Order) {buf : List N
   | le => rw [slotShift_le h (Nat.mod_lt _ (ppb_pos h))]
   | be => rw [slotShift_be]
 
-/-- 8 bits: pixel `i` is byte `i`, in either order. -/
+/-- 8 bits: pixel `i` is byte `i`, in either order. Definitional (`rfl`): the model's `load 8` is
+`buf[i]?`, as `RawU8::load` is `buffer.get(index)`; tied to the code by the `raw.load 8 ..` ops. -/
 theorem layout_u8 (o : Order) (buf : List Nat) (i : Nat) : load 8 o buf i = buf[i]? := rfl
 
 /-- 16/24/32 bits, `n = bits/8`: byte `j` (base-256 digit `j`, `j = 0` least significant) of
@@ -154,7 +202,9 @@ theorem layout_multibyte_bit {bits : Nat} (h : multiByte bits) (o : Order) {buf 
   cases o <;> simpa [Order.alt] using hb
 
 /-- The bytes written by a multi-byte `store` are the base-256 digits of the value:
-`v % 256, v / 256 % 256, ...` (little endian; reversed for big endian). -/
+`v % 256, v / 256 % 256, ...` (little endian; reversed for big endian). Definitional (`rfl`
+unfolding of `toLe` / `toBe` for 2, 3, 4 bytes, one big-endian instance shown); the content is in
+`layout_multibyte` / `layout_multibyte_bit`, which say where each digit / bit is found again. -/
 theorem to_le_bytes_spec (v : Nat) :
     toLe 2 v = [v % 256, v / 256 % 256] ∧
     toLe 3 v = [v % 256, v / 256 % 256, v / 256 / 256 % 256] ∧
@@ -203,7 +253,11 @@ theorem iter_nth_fresh {bits : Nat} (hb : validBits bits = true) (o : Order) (da
   have := Iter.nth_fst (Iter.new bits o data) hb hf k
   simpa [Iter.new] using this
 
-/-- `size_hint` is exact at every position: lower = upper = number of remaining items. -/
+/-- `size_hint` is exact at every position: lower = upper = number of remaining items. (The property
+text asks only that it BRACKETS the remaining count — `size_hint_brackets` below, oracle class
+`size-hint-bracket`; exactness is what the code does today, so the model states it and the
+correspondence compares the exact pair. A change to a looser but still bracketing hint would show
+as a model disagreement, not as an oracle failure.) -/
 theorem size_hint_exact (it : Iter) (hb : validBits it.bits = true) (hf : it.Fits) :
     it.sizeHint = (it.toList.length, some it.toList.length) := by
   rw [Iter.sizeHint_eq it hf, Iter.toList_length it hb]
@@ -240,7 +294,10 @@ example : validBits 2 = true ∧ subByte 2 ∧ multiByte 24 := by decide
 example : (0x2D : Nat) < 256 ∧ 3 < 8 / 2 ∧ 2 < 2 ^ 2 := by decide
 example : BytesOk [0x12, 0xA5, 0xFF] := by intro b hb; simp at hb; omega
 example : 5 < pixelCount 2 [0x12, 0xA5, 0xFF].length := by decide
+-- pixel 5 at 2 bpp: byte 1, slot 1; LittleEndianMsb0 field = bits [8-2*2, 8-2*2+2) = [4,6): 0xA5 -> 0x95;
+-- BigEndianLsb0 field = bits [2*1, 2*1+2) = [2,4): 0xA5 -> 0xA5 (value 1 was there), 0xAD for value 3
 example : store 2 .le 1 [0x12, 0xA5, 0xFF] 5 = (true, [0x12, 0x95, 0xFF]) := by decide
+example : bitPosition 2 .le 5 = (1, 4) ∧ bitPosition 2 .be 5 = (1, 2) := by decide
 example : store 2 .be 1 [0x12, 0xA5, 0xFF] 5 = (true, [0x12, 0xA5, 0xFF]) := by decide
 example : store 2 .be 3 [0x12, 0xA5, 0xFF] 5 = (true, [0x12, 0xAD, 0xFF]) := by decide
 example : store 24 .be 0x123456 [1, 2, 3, 4, 5, 6, 7] 1 = (true, [1, 2, 3, 0x12, 0x34, 0x56, 7]) := by decide
